@@ -318,28 +318,38 @@ class Inliner:
 
     # ---- statement level
     def body_for(self, h, call, recv, target):
-        m = h.bind(call, recv)
-        pre = []
-        for p in h.params:
-            a = m[p]
-            if isinstance(a, ast.Name) and a.id == p:
-                continue
-            pre.append(ast.copy_location(ast.Assign(targets=[ast.Name(id=p, ctx=ast.Store())], value=copy.deepcopy(a)), call))
-        body, allret = _conv(copy.deepcopy(h.f.body), target)
+        pre, hbody = self._bind_params(h, call, recv)
+        body, allret = _conv(hbody, target)
         if not allret and target is not None and not (isinstance(target, tuple) and target[0] == 'return'):
             body.append(_assign(target, None, call))
         return pre + body
 
-    def gen_body(self, h, call, recv, on_yield):
-        """generator helper body with every `yield e` statement replaced by on_yield(e, yield_stmt)"""
+    def _bind_params(self, h, call, recv):
+        """(parameter-binding assignments, copy of the helper body): a parameter the helper never re-binds and whose argument is a plain
+        name / attribute / constant / simple subscript is substituted directly (the extracted statements then read exactly like before)"""
         m = h.bind(call, recv)
-        pre = []
+        stored = {n.id for n in ast.walk(h.f) if isinstance(n, ast.Name) and isinstance(n.ctx, (ast.Store, ast.Del))}
+
+        def simple(e):
+            return isinstance(e, (ast.Name, ast.Constant)) or (isinstance(e, ast.Attribute) and simple(e.value)) or \
+                (isinstance(e, ast.Subscript) and simple(e.value) and simple(e.slice))
+        pre, sub = [], {}
         for p in h.params:
             a = m[p]
             if isinstance(a, ast.Name) and a.id == p:
                 continue
-            pre.append(ast.copy_location(ast.Assign(targets=[ast.Name(id=p, ctx=ast.Store())], value=copy.deepcopy(a)), call))
+            if p not in stored and simple(a):
+                sub[p] = a
+            else:
+                pre.append(ast.copy_location(ast.Assign(targets=[ast.Name(id=p, ctx=ast.Store())], value=copy.deepcopy(a)), call))
         body = copy.deepcopy(h.f.body)
+        if sub:
+            body = [_Subst(sub).visit(x) for x in body]
+        return pre, body
+
+    def gen_body(self, h, call, recv, on_yield, on_yield_from=None):
+        """generator helper body with every `yield e` statement replaced by on_yield(e, yield_stmt)"""
+        pre, body = self._bind_params(h, call, recv)
 
         def rec(stmts):
             out = []
@@ -348,7 +358,10 @@ class Inliner:
                     out.extend(on_yield(s.value.value, s))
                     continue
                 if isinstance(s, ast.Expr) and isinstance(s.value, ast.YieldFrom):
-                    raise NotInlinable('nested yield from')
+                    if on_yield_from is None:
+                        raise NotInlinable('nested yield from')
+                    out.extend(on_yield_from(s.value.value, s))
+                    continue
                 if isinstance(s, ast.Return):
                     raise NotInlinable('return in generator')
                 if isinstance(s, (ast.FunctionDef, ast.ClassDef)):
@@ -388,13 +401,16 @@ class Inliner:
                             body = [ast.copy_location(ast.For(target=ast.Name(id='_inl_once', ctx=ast.Store()), iter=ast.Tuple(elts=[ast.Constant(value=None)], ctx=ast.Load()),
                                                               body=body, orelse=[]), s)]
                         return [ast.copy_location(ast.Assign(targets=[copy.deepcopy(s.target)], value=e), ys)] + body
-                    new = self.gen_body(h, s.iter, recv, on_yield)
+                    def on_yield_from(e, ys, s=s, has_cont=has_cont):
+                        # `yield from X` consumed by `for T in ..: BODY`  ==  `for T in X: BODY`
+                        return [ast.copy_location(ast.For(target=copy.deepcopy(s.target), iter=e, body=copy.deepcopy(s.body), orelse=[]), ys)]
+                    new = self.gen_body(h, s.iter, recv, on_yield, on_yield_from)
                     self.done.append((None, h.qual, 'generator loop'))
                     return self.block(new, depth + 1)
             if isinstance(s, ast.Expr) and isinstance(s.value, ast.YieldFrom) and isinstance(s.value.value, ast.Call):
                 h, recv = self.helper_of(s.value.value)
                 if h is not None and h.is_gen:
-                    new = self.gen_body(h, s.value.value, recv, lambda e, ys: [ys])
+                    new = self.gen_body(h, s.value.value, recv, lambda e, ys: [ys], lambda e, ys: [ys])
                     self.done.append((None, h.qual, 'yield from'))
                     return self.block(new, depth + 1)
             call, target = None, None
